@@ -536,8 +536,18 @@ where
 
         if self.prev_values.is_empty() {
             self.save_state = self.state.clone();
-            if self.time.real() + self.dt.real() * self.order.real() >= self.end.real() {
-                self.dt = (self.end - self.time) / self.order;
+            // The starting steps are only yielded once a BDF step has confirmed them, so they
+            // need room for that step before the end. Otherwise advance by single Runge-Kutta
+            // steps, which are yielded directly.
+            // (the time after the starting steps is accumulated exactly as they accumulate it)
+            let mut after_start = self.time;
+            for _ in 0..O {
+                after_start += self.dt;
+            }
+            if after_start.real() + self.dt.real() >= self.end.real() {
+                self.runge_kutta(1)?;
+                self.prev_values.clear();
+                return Ok((self.time.real(), self.state.clone()));
             }
             self.runge_kutta(O)?;
             self.yield_memory = O + 1;
